@@ -5,3 +5,36 @@ def run(prop, tier, seed, stage, res, problems, extra_info, workdir):
     fn = globals().get('extra_' + prop)
     if fn:
         fn(tier, seed, stage, res, problems, extra_info, workdir)
+
+
+import os, subprocess
+import runner
+
+
+def extra_C07(tier, seed, stage, res, problems, extra_info, workdir):
+    """Thorough: the stress suite again with a race-detector build of the harness."""
+    if tier != 'thorough':
+        extra_info['race_detector'] = 'not run in the quick tier'
+        return
+    exe = runner.BUILD + '/harness.race'
+    cmd = ['go', 'build', '-race', '-tags', 'verif', '-overlay', runner.BUILD + '/overlay.json', '-o', exe, './internal/verifdrv']
+    rc, out = runner.sh(cmd, cwd=runner.REPO, timeout=1200)
+    if rc != 0:
+        extra_info['race_detector'] = 'race build failed: ' + out[-300:]
+        return
+    cases, impl = os.path.join(workdir, 'race.cases'), os.path.join(workdir, 'race.impl')
+    p = subprocess.run([exe, '-suite', 'stress', '-seed', str(seed), '-n', '60', '-cases', cases, '-impl', impl],
+                       stdout=subprocess.PIPE, stderr=subprocess.STDOUT, timeout=3000, env=runner.ENV)
+    out = p.stdout.decode('utf-8', 'replace')
+    extra_info['race_detector'] = 'go build -race; stress x60: exit %d' % p.returncode
+    if 'DATA RACE' in out or p.returncode != 0:
+        res.mismatches.append(dict(suite='stress-race', mode='race', kind='spec', case='pair\tC07\tstress -race seed=%d' % seed,
+                                   impl=out[-3000:], model='no data race', impl_view='DATA RACE reported by the Go race detector', model_view='none'))
+        return
+    lines = open(impl).read().split('\n')
+    cl = open(cases).read().split('\n')
+    for c, i in zip(cl, lines):
+        if c:
+            res.evaluations += 1
+            if i != 'ok':
+                res.mismatches.append(dict(suite='stress-race', mode='full', kind='spec', case=c, impl=i, model='ok', impl_view=i, model_view='ok'))
